@@ -1,0 +1,76 @@
+//! Verification hooks, only compiled with `--cfg anything_verif`.
+//!
+//! Nothing in here changes behaviour; it exposes crate-private items to an
+//! external harness and provides process-abort crash points.
+
+use crate::compound::Compound;
+use crate::rational::Rational;
+
+pub use crate::generated::ids::id_to_derived;
+pub use crate::generated::unit::parse as parse_unit_word;
+pub use crate::unit::Derived;
+
+/// Plain view of a unit's conversion: `(kind, numer, denom)` where kind is
+/// `0` for a factor, `1` for an offset and `2` for conversion methods.
+pub fn conversion_of(unit: &crate::Unit) -> Option<(u8, u128, u128)> {
+    use crate::unit::Conversion;
+
+    match unit.conversion()? {
+        Conversion::Factor(f) => Some((0, f.numer, f.denom)),
+        Conversion::Offset(f) => Some((1, f.numer, f.denom)),
+        Conversion::Methods(..) => Some((2, 0, 0)),
+    }
+}
+
+/// Apply the `to` (or `from`) conversion method of a unit, if it has any.
+pub fn apply_methods(unit: &crate::Unit, to: bool, value: &mut Rational) -> bool {
+    use crate::unit::Conversion;
+
+    match unit.conversion() {
+        Some(Conversion::Methods(m)) => {
+            if to {
+                (m.to)(value)
+            } else {
+                (m.from)(value)
+            }
+
+            true
+        }
+        _ => false,
+    }
+}
+
+/// Expose `Compound::factor`; `Err(())` is the conversion error.
+pub fn factor(a: &Compound, b: &Compound, value: &mut Rational) -> Result<bool, ()> {
+    a.factor(b, value).map_err(|_| ())
+}
+
+/// Expose `Compound::mul`; `Err(())` is the conversion error.
+pub fn mul(
+    a: &Compound,
+    b: &Compound,
+    n: i32,
+    lhs: &mut Rational,
+    rhs: &mut Rational,
+) -> Result<Compound, ()> {
+    a.mul(b, n, lhs, rhs).map_err(|_| ())
+}
+
+/// Expose `Db::lookup`.
+pub fn lookup(db: &crate::Db, query: &str) -> Result<Option<crate::Constant>, String> {
+    match db.lookup(query) {
+        Ok(Some(crate::db::Match::Constant(c))) => Ok(Some(c)),
+        Ok(None) => Ok(None),
+        Err(e) => Err(e.to_string()),
+    }
+}
+
+/// Abort the process if `ANYTHING_VERIF_CRASH` names this crash point.
+pub fn crash_point(n: u32) {
+    if let Ok(v) = std::env::var("ANYTHING_VERIF_CRASH") {
+        if v.trim().parse::<u32>().ok() == Some(n) {
+            eprintln!("anything_verif: crash point {n}");
+            std::process::abort();
+        }
+    }
+}
